@@ -1060,3 +1060,158 @@ Proof.
       { intros E. apply (NoDup_map_inj _ _ ct files x y NDc Hx Hy0) in E. subst y. congruence. }
       lia.
 Qed.
+
+Lemma evict_if_needed_ok : forall files m, NoDup (map fst files) -> NoDup (map ct files) ->
+  exists files', evict_if_needed true files m = (files', None)
+    /\ incl files' files
+    /\ NoDup (map fst files') /\ NoDup (map ct files')
+    /\ (forall n, m = Some n -> length files' <= n)
+    /\ (forall x y, In x files -> ~ In x files' -> In y files' -> ct x < ct y).
+Proof.
+  intros files [n|] NDk NDc; cbn.
+  - destruct (evict_loop_ok (length files - n) files) as (files' & Ev & Len & Inc & N1 & N2 & Pol); auto; try lia.
+    exists files'. repeat split; auto. intros n' E. inversion E; subst. lia.
+  - exists files. repeat split; auto. { apply incl_refl. } { discriminate. } tauto.
+Qed.
+
+Section DiskFacts.
+  Variable wl : bool.
+  Variable ls : nat.
+  Hypothesis Hls : wl = true -> 1 <= ls.
+
+  Definition disk_inv (st : disk) : Prop :=
+    NoDup (map fst (d_files st)) /\ NoDup (map ct (d_files st))
+    /\ Forall (fun x => ct x < d_clock st) (d_files st)
+    /\ lru_inv ls (d_lru st).
+
+  Lemma mk_disk_inv : forall f c l m,
+    NoDup (map fst f) -> NoDup (map ct f) -> Forall (fun x => ct x < c) f -> lru_inv ls l ->
+    disk_inv (mkDisk f c l m).
+  Proof. intros. unfold disk_inv; cbn. auto. Qed.
+
+  Lemma disk_open_inv : forall m, disk_inv (disk_open [] 0 m).
+  Proof. intros m. apply mk_disk_inv; [constructor | constructor | constructor | apply lru_inv_empty]. Qed.
+
+  Lemma front_put_ok : forall l k v, lru_inv ls l ->
+    exists l1, (if wl then lru_put ls l k v else (l, ONone)) = (l1, ONone) /\ lru_inv ls l1.
+  Proof.
+    intros l k v Hl. destruct wl eqn:E.
+    - destruct (lru_put_ok ls l k v (Hls eq_refl) Hl) as [H1 H2].
+      destruct (lru_put ls l k v) as [l1 o]. cbn in *. subst o. eauto.
+    - eauto.
+  Qed.
+
+  (* the put of the repaired code, in closed form *)
+  Lemma disk_put_spec : forall st k v, disk_inv st ->
+    let files1 := aset k (v, d_clock st) (d_files st) in
+    exists files' l1,
+      disk_put wl ls true st k v = (mkDisk files' (S (d_clock st)) l1 (d_max st), ONone)
+      /\ disk_inv (mkDisk files' (S (d_clock st)) l1 (d_max st))
+      /\ incl files' files1
+      /\ (forall n, d_max st = Some n -> length files' <= n)
+      /\ (forall x y, In x files1 -> ~ In x files' -> In y files' -> ct x < ct y).
+  Proof.
+    intros st k v (NDk & NDc & LT & HL) files1.
+    assert (NDk1 : NoDup (map fst files1)).
+    { unfold files1. rewrite keys_aset. destruct (amem k (d_files st)) eqn:E; auto.
+      apply NoDup_snoc; auto. now apply amem_false_In. }
+    assert (NDc1 : NoDup (map ct files1)).
+    { unfold files1. apply NoDup_map_aset; auto. intros x Hx. rewrite Forall_forall in LT.
+      specialize (LT x Hx). unfold ct at 2. cbn. lia. }
+    assert (LT1 : Forall (fun x => ct x < S (d_clock st)) files1).
+    { unfold files1. apply Forall_aset; [unfold ct; cbn; lia|]. eapply Forall_impl; [|exact LT].
+      cbn. intros. lia. }
+    destruct (front_put_ok (d_lru st) k v HL) as (l1 & El & Hl1).
+    destruct (evict_if_needed_ok files1 (d_max st) NDk1 NDc1) as (files' & Ev & Inc & N1 & N2 & Bd & Pol).
+    exists files', l1. unfold disk_put. fold files1. rewrite El. cbn [is_raised]. rewrite Ev.
+    split; [reflexivity|]. split; [|auto].
+    apply mk_disk_inv; auto. rewrite Forall_forall in *. intros x Hx. apply LT1. now apply Inc.
+  Qed.
+
+  Lemma disk_get_ok : forall st k, disk_inv st ->
+    disk_inv (fst (disk_get wl ls st k)) /\ is_raised (snd (disk_get wl ls st k)) = false.
+  Proof.
+    intros st k (NDk & NDc & LT & HL). unfold disk_get.
+    destruct (wl && amem k (l_dict (d_lru st))) eqn:E.
+    - destruct (lru_get_ok ls (d_lru st) k HL) as [H1 H2]. destruct (lru_get (d_lru st) k) as [l1 o].
+      cbn in *. split; auto. apply mk_disk_inv; auto.
+    - destruct (aget k (d_files st)) as [vt|] eqn:Ef.
+      + destruct wl eqn:Ew.
+        * destruct (lru_put_ok ls (d_lru st) k (fst vt) (Hls eq_refl) HL) as [H1 H2].
+          destruct (lru_put ls (d_lru st) k (fst vt)) as [l1 o]. cbn in *. subst o. cbn.
+          split; auto. apply mk_disk_inv; auto.
+        * cbn. split; auto. destruct st; apply mk_disk_inv; auto.
+      + cbn. split; auto. destruct st; apply mk_disk_inv; auto.
+  Qed.
+
+  Lemma disk_step_ok : forall D st (o : dop D), disk_inv st ->
+    disk_inv (fst (disk_step wl ls true st o)) /\ is_raised (snd (disk_step wl ls true st o)) = false.
+  Proof.
+    intros D st o Hinv. destruct o as [[k v d|k|k| |]|m]; cbn.
+    - destruct (disk_put_spec st k v Hinv) as (files' & l1 & E & I1 & _). rewrite E. cbn. auto.
+    - now apply disk_get_ok.
+    - auto.
+    - auto.
+    - split; auto. apply mk_disk_inv; [constructor | constructor | constructor | apply lru_inv_empty].
+    - split; auto. destruct Hinv as (NDk & NDc & LT & HL). apply mk_disk_inv; auto. apply lru_inv_empty.
+  Qed.
+
+  (* disk_inv: distinct file names and ctimes, the LRU front consistent - in every reachable state,
+     including after re-opening the directory with any max_size *)
+  Theorem disk_inv_reachable : forall D m0 (ops : list (dop D)),
+    disk_inv (final (disk_step wl ls true) (disk_open [] 0 m0) ops).
+  Proof.
+    intros D m0 ops. induction ops as [|o ops IH] using rev_ind.
+    - apply disk_open_inv.
+    - rewrite final_snoc. now apply disk_step_ok.
+  Qed.
+
+  (* disk_no_raise *)
+  Theorem disk_no_raise : forall D m0 (ops : list (dop D)),
+    forallb (fun r => negb (is_raised r)) (run_ops (disk_step wl ls true) (disk_open [] 0 m0) ops) = true.
+  Proof.
+    intros D m0 ops. apply run_ops_no_raise_gen with (I := disk_inv).
+    - intros. now apply disk_step_ok.
+    - apply disk_open_inv.
+  Qed.
+
+  (* disk_policy: after ANY history (also: directory re-opened with a smaller max_size) a put leaves at most
+     max_size files, and every file it deleted is older than every file it kept *)
+  Theorem disk_policy : forall D m0 (ops : list (dop D)) k v,
+    let st := final (disk_step wl ls true) (disk_open [] 0 m0) ops in
+    let written := aset k (v, d_clock st) (d_files st) in
+    let st' := fst (disk_put wl ls true st k v) in
+    incl (d_files st') written
+    /\ (forall n, d_max st = Some n -> length (d_files st') <= n)
+    /\ (forall x y, In x written -> ~ In x (d_files st') -> In y (d_files st') -> ct x < ct y).
+  Proof.
+    intros D m0 ops k v st written st'.
+    destruct (disk_put_spec st k v (disk_inv_reachable D m0 ops)) as (files' & l1 & E & _ & Inc & Bd & Pol).
+    unfold st'. fold st in E. rewrite E. cbn. auto.
+  Qed.
+
+  (* len <= max_size in every reachable state when the directory is always re-opened with the same max_size *)
+  Theorem disk_bound : forall D m0 (ops : list (dop D)),
+    Forall (fun o => match o with Reopen m => m = m0 | DOp _ => True end) ops ->
+    let st := final (disk_step wl ls true) (disk_open [] 0 m0) ops in
+    d_max st = m0 /\ forall n, m0 = Some n -> length (d_files st) <= n.
+  Proof.
+    intros D m0 ops. induction ops as [|o ops IH] using rev_ind; intros Hall.
+    - cbn. split; auto. intros; lia.
+    - apply Forall_app in Hall. destruct Hall as [H1 H2]. inversion H2 as [|? ? Ho _]; subst.
+      specialize (IH H1). cbn zeta in *. rewrite final_snoc.
+      pose proof (disk_inv_reachable D m0 ops) as Hinv.
+      set (st := final (disk_step wl ls true) (disk_open [] 0 m0) ops) in *.
+      destruct IH as [Emax Hb]. destruct o as [[k v d|k|k| |]|m]; cbn.
+      + destruct (disk_put_spec st k v Hinv) as (files' & l1 & E & _ & _ & Bd & _). rewrite E. cbn.
+        split; auto. intros n En. apply Bd. congruence.
+      + unfold disk_get. destruct (wl && amem k (l_dict (d_lru st))).
+        * destruct (lru_get (d_lru st) k). cbn. auto.
+        * destruct (aget k (d_files st)); [|cbn; auto]. destruct wl; [|cbn; auto].
+          destruct (lru_put ls (d_lru st) k (fst p)). cbn. auto.
+      + auto.
+      + auto.
+      + split; auto. intros; lia.
+      + subst m. split; auto.
+  Qed.
+End DiskFacts.
